@@ -305,6 +305,9 @@ class RecordLayer(object):
         self._pendingWriteState = ConnectionState()
         self._pendingReadState = ConnectionState()
         self.fixedIVBlock = None
+        # number of times the read keys were changed (TLS 1.3: 1 means
+        # handshake traffic keys, more means application traffic keys)
+        self._read_key_changes = 0
 
         self.handshake_finished = False
 
@@ -438,6 +441,7 @@ class RecordLayer(object):
         self._readState = ConnectionState()
         self._pendingWriteState = ConnectionState()
         self._pendingReadState = ConnectionState()
+        self._read_key_changes = 0
 
     def isCBCMode(self):
         """Returns true if cipher uses CBC mode"""
@@ -926,13 +930,15 @@ class RecordLayer(object):
                         header.type == ContentType.change_cipher_spec:
                     pass
                 # when we're in the early handshake, then unencrypted alerts
-                # are fine too
+                # are fine too (but not once the peer has switched to
+                # application traffic keys, or a key update)
                 elif self._is_tls13_plus() and \
                         header.type == ContentType.alert and \
                         len(data) < 3 and \
                         self._readState and \
                         self._readState.encContext and \
-                        self._readState.seqnum == 0:
+                        self._readState.seqnum == 0 and \
+                        self._read_key_changes <= 1:
                     pass
                 elif self._readState and \
                     self._readState.encContext and \
@@ -1020,6 +1026,7 @@ class RecordLayer(object):
             self._pendingReadState.seqnum = self._readState.seqnum
         self._readState = self._pendingReadState
         self._pendingReadState = ConnectionState()
+        self._read_key_changes += 1
 
     @staticmethod
     def _getCipherSettings(cipherSuite):
@@ -1357,11 +1364,13 @@ class RecordLayer(object):
             new_sr_app_secret, server_state = self._calcTLS1_3KeyUpdate(
                 cipherSuite, sr_app_secret)
             self._readState = server_state
+            self._read_key_changes += 1
             return cl_app_secret, new_sr_app_secret
         else:
             new_cl_app_secret, client_state = self._calcTLS1_3KeyUpdate(
                 cipherSuite, cl_app_secret)
             self._readState = client_state
+            self._read_key_changes += 1
             return new_cl_app_secret, sr_app_secret
 
     def calcTLS1_3KeyUpdate_reciever(self, cipherSuite, cl_app_secret,
